@@ -71,8 +71,8 @@ def case_scheme(case):
         return core.ood("invalid-combination")
     try:
         ref = S.reference(spec)
-    except S.AlignAmbiguous:
-        return core.ood("ambiguous-alignment")
+    except S.OutOfDomain as e:
+        return core.ood(e.reason)
     if ref["cond"] > 1e8:
         return core.ood("ill-conditioned")
     opt, pen, warns, hist = evaluate(spec, spec["x_variant"], again=2)
